@@ -23,19 +23,42 @@ TIERS = {
 }
 
 TOPICS = ('a', 'b', 'c', 'd', 'e', 'f', 'g', 'h')
-BOUNDS = (None, 1, 50, 100, 1000)
+BOUNDS = (None, None, 0, 1, 50, 100, 250, 1000, 2500)
 
 ###############################################################################
 # Property generation (activator always simple)
 ###############################################################################
 
 
-def _pred(sim, visible):
+def _num12(sim, visible):
+    """A total numeric term over the payload (and visible aliases)."""
+    k = sim.weighted('numk', [(4, 'f'), (2, 'lit'), (2.0 if visible else 0, 'aref'), (1.5, 'arith'), (0.7, 'abs')])
+    if k == 'f':
+        return ('field', sim.pick('nf', ('x', 'y')))
+    if k == 'lit':
+        return ('lit', 'num', sim.pick('nl', ('0', '1', '2', '3')))
+    if k == 'aref':
+        return ('dot', ('var', sim.pick('na', visible)), sim.pick('naf', ('x', 'y')))
+    if k == 'arith':
+        return ('bin', sim.pick('nop', ('+', '-', '*')), _num12(sim, visible), ('lit', 'num', sim.pick('nl2', ('1', '2'))))
+    return ('call', 'abs', ('bin', '-', _num12(sim, visible), _num12(sim, visible)))
+
+
+def _pred(sim, visible, depth=0):
     """Predicate templates over the payload {x, y in 0..2, ok}; total (never undefined)."""
     k = sim.weighted('predk', [(3, 'none'), (2, 'cmp'), (1.5, 'in_set'), (1.5, 'in_range'), (1.5, 'ok'), (1, 'notok'),
-                               (2.0 if visible else 0, 'ref'), (1, 'conj'), (0.7, 'quant')])
+                               (2.0 if visible else 0, 'ref'), (1, 'conj'), (0.7, 'quant'),
+                               (1.5 if depth < 2 else 0, 'neg'), (1.2, 'cmp2'), (0.8 if visible else 0, 'range_ref')])
     if k == 'none':
         return None
+    if k == 'neg':
+        inner = _pred(sim, visible, depth + 1) or ('bin', sim.pick('ncmp', ('<', '<=', '>', '>=')), ('field', 'x'), _num12(sim, visible))
+        return ('un', 'not', inner)
+    if k == 'cmp2':
+        return ('bin', sim.pick('c2op', ('<', '<=', '>', '>=', '=', '!=')), _num12(sim, visible), _num12(sim, visible))
+    if k == 'range_ref':
+        al = sim.pick('rral', visible)
+        return ('bin', 'in', ('field', sim.pick('rrf', ('x', 'y'))), ('range', ('dot', ('var', al), 'x'), ('lit', 'num', '2'), sim.coin('rrx', 0.3), False))
     f = sim.pick('fld', ('x', 'y'))
     if k == 'cmp':
         return ('bin', sim.pick('cmpop', ('<', '<=', '>', '>=', '=', '!=')), ('field', f), ('lit', 'num', sim.pick('cmpk', ('0', '1', '2'))))
@@ -53,12 +76,13 @@ def _pred(sim, visible):
         al = sim.pick('refal', visible)
         return ('bin', sim.pick('refop', ('=', '<', '>=', '!=')), ('field', f), ('dot', ('var', al), sim.pick('reff', ('x', 'y'))))
     if k == 'conj':
-        a = _pred(sim, visible) or ('field', 'ok')
-        b = _pred(sim, visible) or ('bin', '>', ('field', 'x'), ('lit', 'num', '0'))
-        return ('bin', sim.pick('cj', ('and', 'or', 'implies')), a, b)
-    # quantifier over a literal set (total)
-    return ('quant', sim.pick('q', ('forall', 'exists')), 'i', ('set', [('lit', 'num', '0'), ('lit', 'num', '1')]),
-            ('bin', sim.pick('qop', ('<=', '!=', '>')), ('var', 'i'), ('field', f)))
+        a = _pred(sim, visible, depth + 1) or ('field', 'ok')
+        b = _pred(sim, visible, depth + 1) or ('bin', '>', ('field', 'x'), ('lit', 'num', '0'))
+        return ('bin', sim.pick('cj', ('and', 'or', 'implies', 'iff')), a, b)
+    # quantifier over a literal set (total); its variable sometimes shadows a visible alias name
+    qv = sim.pick('qvshadow', visible) if visible and sim.coin('shadow', 0.3) else 'i'
+    return ('quant', sim.pick('q', ('forall', 'exists')), qv, ('set', [('lit', 'num', '0'), ('lit', 'num', '1')]),
+            ('bin', sim.pick('qop', ('<=', '!=', '>')), ('var', qv), ('field', f)))
 
 
 class PropGen12:
@@ -328,6 +352,14 @@ def simulate(sim, pdesc, cfg, on_deliver):
 ###############################################################################
 
 
+class Unparseable(Exception):
+    """The generated text is not accepted by the parser (a workload matter, not judged)."""
+
+
+class Refused(Exception):
+    """canonical_form raised for this property (C11/C14 matter): counted by class, not judged."""
+
+
 def renest_left(event):
     """The grammar only writes right-nested disjunctions; through the API the same alternatives can
     be nested to the left. Same meaning, different tree shape for simple_events() to walk."""
@@ -360,10 +392,16 @@ class Judge:
 
     def __init__(self, text, renest=False):
         from hpl.rewrite import canonical_form
-        self.ast = build.parser('property').parse(text)
-        if renest:
-            self.ast = rebuild_through_api(self.ast)
-        self.parts_ast = canonical_form(self.ast)
+        try:
+            self.ast = build.parser('property').parse(text)
+            if renest:
+                self.ast = rebuild_through_api(self.ast)
+        except Exception as e:
+            raise Unparseable(type(e).__name__)
+        try:
+            self.parts_ast = canonical_form(self.ast)
+        except Exception as e:
+            raise Refused(type(e).__name__)
         self.P = monitor.Prop(self.ast)
         self.parts = [monitor.Prop(p) for p in self.parts_ast]
         # an empty canonical form is a conjunction of nothing: satisfied by every trace
@@ -399,13 +437,16 @@ def run_one(seed, cfg, stats):
     shape = (pdesc['scope'][0], pdesc['pattern'][0], len(topics_of(pdesc['pattern'][1])), len(topics_of(pdesc['pattern'][2])),
              len(topics_of(pdesc['scope'][2])), pdesc['pattern'][3] is not None)
     renest = sim.coin('renest', 0.25)
-    from hpl.errors import HplSanityError
     try:
         judge = Judge(text, renest)
-    except HplSanityError as e:
-        # canonical_form refuses some alias shapes (C11/C14 matter): counted, not judged
+    except Unparseable as e:
+        count('generated_text_rejected_by_parser')
+        return None, {'text': text, 'shape': shape, 'digest': sim.digest(), 'refused': True}
+    except Refused as e:
+        # canonical_form raised (C11/C14 matter): counted by exception class, not judged. Anything
+        # that goes wrong in the judge itself propagates as a harness error.
         count('refused')
-        count('refused_' + type(e).__name__)
+        count('refused_' + str(e))
         return None, {'text': text, 'shape': shape, 'digest': sim.digest(), 'refused': True}
     count('properties')
     if judge.split:
@@ -613,6 +654,8 @@ def main(argv):
         'messages_delivered': stats.get('delivered', 0),
         'properties_actually_split': stats.get('properties_split', 0),
         'properties_refused_by_canonical_form': stats.get('refused', 0),
+        'refusals_by_exception_class': {k[8:]: v for k, v in sorted(stats.items()) if k.startswith('refused_')},
+        'generated_texts_rejected_by_parser': stats.get('generated_text_rejected_by_parser', 0),
         'shapes_with_both_verdicts_observed': both,
         'fault_kinds_fired': {k[6:]: v for k, v in sorted(stats.items()) if k.startswith('fault_')},
         'distinct_fault_kind_sets_per_run': len(fault_sets),
